@@ -4,7 +4,7 @@ def _al(kind, e):
     return {'amc': 'vf::AAmc<%s >' % e, 'std': 'vf::AStd<%s >' % e, 're': 'vf::ARe<%s >' % e,
             'realamc': 'amc::allocator<%s >' % e, 'realstd': 'std::allocator<%s >' % e}[kind]
 
-ELEM = {'i32': 'int32_t', 'u8e': 'uint8_t', 'i64': 'int64_t', 'tc3': 'vf::TC<3,1>', 'tc7': 'vf::TC<7,1>',
+ELEM = {'co': 'vf::CO', 'i32': 'int32_t', 'u8e': 'uint8_t', 'i64': 'int64_t', 'tc3': 'vf::TC<3,1>', 'tc7': 'vf::TC<7,1>',
         'tc12': 'vf::TC<12,4>', 'tc16a16': 'vf::TC<16,16>', 'tr': 'vf::TR', 'ntr': 'vf::NTR', 'mo': 'vf::MO'}
 ST = {'u8': 'uint8_t', 'i8': 'int8_t', 'u16': 'uint16_t', 'i16': 'int16_t', 'u32': 'uint32_t', 'i32': 'int32_t', 'u64': 'uint64_t'}
 
@@ -44,6 +44,8 @@ VEC_CONFIGS = [
     ('sv_4_tc7_u16_std', vec(4, 'tc7', 'u16', 'std')),
     ('sv_4_i32_i8_std', vec(4, 'i32', 'i8', 'std')),
     ('sv_2_tc7_u32_std', vec(2, 'tc7', 'u32', 'std')),
+    ('vec_0_co_u32_std', vec(0, 'co', 'u32', 'std')),
+    ('sv_3_co_u16_amc', vec(3, 'co', 'u16', 'amc')),
     ('sv_3_tc3_u16_re', vec(3, 'tc3', 'u16', 're')),
     ('sv_8_u8e_u32_amc', vec(8, 'u8e', 'u32', 'amc')),
     ('sv_8_tr_u64_std', vec(8, 'tr', 'u64', 'std')),
@@ -60,6 +62,7 @@ VEC_CONFIGS = [
     ('fcv_6_tr', fcv(6, 'tr')),
     ('fcv_6_ntr', fcv(6, 'ntr')),
     ('fcv_6_tc3', fcv(6, 'tc3')),
+    ('fcv_5_co', fcv(5, 'co')),
     ('fcv_16_i32', fcv(16, 'i32')),
     ('fcv_16_mo', fcv(16, 'mo')),
     ('fcv_255_u8e', fcv(255, 'u8e')),
@@ -93,7 +96,7 @@ def is_8bit(n):
 
 
 def is_tracked(n):
-    return '_tr' in n or '_ntr' in n or '_mo' in n
+    return '_tr' in n or '_ntr' in n or '_mo' in n or '_co' in n
 
 
 # ---------------------------------------------------------------- FlatSet configurations
@@ -141,6 +144,8 @@ FS_CONFIGS = [
     ('fs_less_amcvec_mo_amc', flatset('less', 'amcvec', 'mo', 'amc')),
     ('fs_stateful_sv4_mo_std', flatset('stateful', 'sv4', 'mo', 'std')),
     ('fs_less_amcvec_tr_realamc', flatset('less', 'amcvec', 'tr', 'realamc')),
+    ('fs_less_amcvec_co_std', flatset('less', 'amcvec', 'co', 'std')),
+    ('fs_stateful_sv4_co_amc', flatset('stateful', 'sv4', 'co', 'amc')),
 ]
 FS_DEFS = dict(FS_CONFIGS)
 FS_MULTISTD = ['fs_less_sv4_ntr_std', 'fs_stateful_amcvec_ntr_amc', 'fs_coarse_amcvec_tr_re']
@@ -179,5 +184,7 @@ SS_CONFIGS = [
     ('ss_2_less_flatvec_mo_amc', smallset('mo', 2, 'less', 'amc', 'flatvec', 3, 'flatvec')),
     ('ss_4_transparent_stdset_i32_std', smallset('i32', 4, 'transparent', 'std', 'stdset', 2, 'flatvec')),
     ('ss_3_less_flatvec_tr_realamc', smallset('tr', 3, 'less', 'realamc', 'flatvec', 2, 'stdset')),
+    ('ss_3_less_flatvec_co_std', smallset('co', 3, 'less', 'std', 'flatvec', 2, 'flatvec')),
+    ('ss_2_greater_stdset_co_amc', smallset('co', 2, 'greater', 'amc', 'stdset', 4, 'stdset')),
 ]
 SS_DEFS = dict(SS_CONFIGS)
